@@ -1,4 +1,4 @@
-\* C05 thorough: every behaviour the property allows (Permissive), <= 3 commands
+\* C05 thorough (one identity, <= 3 commands; MC_C05_users.cfg has two identities): every behaviour the property allows (Permissive), <= 3 commands
 \* per connection, <= 2 connections, all client kinds, policy and authorizer changes
 SPECIFICATION Spec
 CONSTANTS
@@ -7,7 +7,7 @@ CONSTANTS
   PolicyTabs = {1, 2}
   AuthzTabs = {0, 1, 2}
   InitAuthz = {0, 1}
-  Users = {"alice", "bob"}
+  Users = {"alice"}
   Permissive = TRUE
   Bug = {}
 INVARIANTS TypeOK HandlerOnlyOnAdequateSession RawAuthSeparated RefusedClosesWithoutHandler
